@@ -49,14 +49,22 @@ SentinelPool == {<<"ID_ctxCanceled", "L_ctxCanceled">>, <<"ID_osErrNotExist", "L
 \* errno name and the literal token of its text (EACCES prints the same text as os.ErrPermission)
 ErrnoPool == {<<"ENOENT", "L_errno_ENOENT">>, <<"EACCES", "L_osErrPermission">>,
               <<"EEXIST", "L_errno_EEXIST">>, <<"EINTR", "L_errno_EINTR">>}
-KeyPool == {<< <<PW(1)>> >>, << <<PW(2)>>, <<PW(1)>> >>}
+\* (also the same key twice in one call)
+KeyPool == {<< <<PW(1)>> >>, << <<PW(2)>>, <<PW(1)>> >>, << <<PW(1)>>, <<PW(2)>>, <<PW(1)>> >>}
 LinkPool == {<< <<PW(1)>>, <<PW(2)>> >>, << <<>>, <<PW(1)>> >>, << <<PW(2)>>, <<>> >>, << <<>>, <<>> >>,
              << <<PW(1), "PCT">>, <<"PCT", PW(2)>> >>}
 \* tag values: strings, a value-less tag (NILV), a value marked safe (SAFEV), an integer
+\* (EMPTYBUF: a context whose tag buffer exists but is empty; HostileTags: a value with marker characters)
 TagPool == {<< <<PW(1)>>, <<PW(2)>> >>, << <<PW(2)>>, <<PW(1)>>, <<PW(1)>>, <<PW(3)>> >>,
-            << <<PW(1)>>, <<"NILV">>, <<PW(2)>>, <<"SAFEV", PW(3)>> >>, << <<PW(3)>>, <<"n5">> >>}
+            << <<PW(1)>>, <<"NILV">>, <<PW(2)>>, <<"SAFEV", PW(3)>> >>, << <<PW(3)>>, <<"n5">> >>,
+            << <<"EMPTYBUF">> >>}
+           \cup (IF "HostileTags" \in Ops THEN {<< <<PW(1)>>, <<PW(2), "MC", "SP", PW(3), "SP", "MO">> >>} ELSE {})
 \* (n2 is codes.Unknown: attached explicitly, it still is the most recent code)
+\* (n0 is codes.OK / an HTTP code of 0: still a code, the error stays an error; the transport
+\* of the Grpc family cannot carry an error under codes.OK, so it is generated on request only)
 CodePool == {<< <<"n404">> >>, << <<"n5">> >>, << <<"n2">> >>}
+            \cup (IF "OKCode" \in Ops THEN {<< <<"n0">> >>} ELSE {})
+            \cup (IF "AllGrpcCodes" \in Ops THEN {<< <<"n" \o ToString(k)>> >> : k \in 1..16} ELSE {})
 ULeafKinds == {"uPtrLeaf", "uValLeaf", "uValPtrLeaf", "uRegLeaf", "uMaybe"}
 UWrapKinds == {"uWrapU", "uWrapC", "uWrapUC", "uWrapFull", "uRegWrap", "uRegWrapFull", "uAnnotWrap", "uKeyWrap", "uMaybe"}
 
@@ -65,6 +73,8 @@ PartsPool(sl) ==
   \cup {<<Part("lit", s, 0), Part("lit", <<SP>>, 0), Part("arg", t, 0)>> : s \in SH, t \in SH2}
   \cup {<<Part("safe", t, 0), Part("lit", <<SEP>>, 0), Part("arg", s, 0)>> : s \in SH, t \in SH2}
   \cup {<<Part("lit", s, 0), Part("lit", <<SP>>, 0), Part("err", E, r)>> : s \in SH2, r \in NonNil(sl)}
+  \* two error operands printed back to back (their renderings touch)
+  \cup {<<Part("err", E, r), Part("err", E, q)>> : r \in NonNil(sl), q \in NonNil(sl)}
 \* formats without error operands (the f-variants of the annotation constructors)
 PartsPoolPlain ==
   {<<Part("lit", s, 0)>> : s \in SH2}
@@ -181,6 +191,12 @@ Step1(sl) ==
         \E i \in NonNil(sl) : \E j \in FirstFree(sl) : Take(Step(o, i, <<i, j>>, E, E, E, 0, E))
   \/ NSlots >= 3 /\ \E o \in {"Join", "JoinPkg", "GoJoin"} \cap Ops : \E t \in Triples(sl) :
         Take(Step(o, t[1], <<t[1], t[2], t[3]>>, E, E, E, 0, E))
+  \* a second handle on the same error object (annotated differently afterwards, the
+  \* two are distinct errors with the same text and, possibly, the same type chain)
+  \/ On("Copy") /\ \E i \in NonNil(sl) : \E d \in FirstFree(sl) : Take(Step("Copy", d, <<i>>, E, E, E, 0, E))
+  \* a user multi-cause type that also has a pkg/errors-style Cause() (its first branch)
+  \/ On("UMultiCause") /\ \E p \in Pairs(sl) : \E s \in SH :
+        Take(Step("UMulti", p[1], <<p[1], p[2]>>, s, <<<<"CAUSE">>>>, E, 0, E))
   \/ On("GoWrap2") /\ \E p \in Pairs(sl) : \E s \in SH : Take(Step("UMulti", p[1], <<p[1], p[2]>>, s, E, E, 0, E))
   \* a user multi-cause type with registered encoder / decoder
   \/ On("GoWrap2") /\ \E p \in Pairs(sl) : \E s \in SH : Take(Step("UMulti", p[1], <<p[1], p[2]>>, s, <<<<"REG">>>>, E, 0, E))
